@@ -310,7 +310,7 @@ fn c11_strategy() -> impl Strategy<Value = C11Case> {
             Just(PerturbKind::UninitNonCopy),
             Just(PerturbKind::UninitNonCopy)
         ],
-        prop_oneof![Just(EntryKind::Override), Just(EntryKind::CopyDatum), Just(EntryKind::Dynamic)],
+        prop_oneof![Just(EntryKind::Override), Just(EntryKind::CopyDatum), Just(EntryKind::Dynamic), Just(EntryKind::NameOnly)],
         prop::bool::weighted(0.4),
         prop::option::weighted(0.5, any::<u16>()),
     )
@@ -397,6 +397,8 @@ fn c11_check(ext: &Externs, dir: &std::path::Path, tag: &str, case: &C11Case) ->
         EntryKind::Override => "entry_override",
         EntryKind::CopyDatum => "entry_copy",
         EntryKind::Dynamic => "entry_dynamic",
+        EntryKind::NameOnly => "entry_partial_override",
+        EntryKind::Typed => "entry_typed",
     });
     let first_variant = control.def.variants().next().map_or(false, |v| v.data().any(|d| datum_index(d) == pid));
     classes.push(if first_variant { "introduced_in_first_variant" } else { "introduced_in_later_variant" });
@@ -463,7 +465,7 @@ fn run_c11(n: usize) -> Result<Value, String> {
     let _ = fs::remove_dir_all(&dir);
     Ok(out.to_json(
         "C11",
-        "definitions as for C13(b); one addition (chosen by selector, in the first or a later variant, possibly removed later) is entered through add_datum_override / copy_datum / add_dynamic_datum with its real type name and either size -1/+1/+align, alignment /2 or x2, or the may-be-uninitialised flag on a non-Copy type; in 40 % of the cases the next addition uses the same type. The perturbed module must be rejected by rustc, the control (same history, same entry point, right information) must compile. non-trivial: the perturbed datum shares a variant with another datum; distinct by hash of the case",
+        "definitions as for C13(b); one addition (chosen by selector, in the first or a later variant, possibly removed later) is entered through add_datum_override (complete or partial: only what is wrong is overridden, the rest comes from the resolver for the real type) / copy_datum / add_dynamic_datum with its real type name and either size -1/+1/+align, alignment /2 or x2, or the may-be-uninitialised flag on a non-Copy type; in 40 % of the cases the next addition uses the same type. The perturbed module must be rejected by rustc, the control (same history, same entry point, right information) must compile. non-trivial: the perturbed datum shares a variant with another datum; distinct by hash of the case",
     ))
 }
 
